@@ -37,7 +37,7 @@ def has_set(v):
     return False
 
 
-def only_none_vs_default(a, b):
+def only_none_vs_default(a, b, fold=False, need_default_case=True):
     """True iff a and b (same model class) differ ONLY at positions where a holds None and b holds the non-None default that
     the field declares (recursively through nested models and lists)."""
     from pydantic import BaseModel
@@ -55,9 +55,9 @@ def only_none_vs_default(a, b):
             return True
         if isinstance(x, (list, tuple)) and isinstance(y, (list, tuple)) and len(x) == len(y):
             return all(same(p, q) for p, q in zip(x, y))
-        return x == y
+        return (nel_fold(x) == nel_fold(y)) if fold else (x == y)
 
-    return same(a, b) and found[0]
+    return same(a, b) and (found[0] or not need_default_case)
 
 
 def nel_fold(x):
@@ -128,7 +128,8 @@ def check_instance(cls, obj, acc, tmp: Path, origin, consts=None):
                 # a non-None default reads back as that default (counted, not a violation)
                 acc.count("observation.explicit_none_reads_back_as_default")
                 continue
-            if form in ("yaml", "yaml-file") and "\\u0085" in j and nel_fold(obj.dict()) == nel_fold(back.dict()) :
+            if form in ("yaml", "yaml-file") and "\\u0085" in j and (nel_fold(obj.dict()) == nel_fold(back.dict())
+                                                                    or only_none_vs_default(obj, back, fold=True, need_default_case=False)):
                 # one mechanism, recorded as known finding: U+0085 (NEL) is written raw into the YAML text and read back as a line
                 # break, i.e. folded into a space; everything else of the instance is equal
                 return "KNOWN:yaml-nel-folded", f"{name}.{k}: {obj.__dict__.get(k)!r} became {back.__dict__.get(k)!r} via {form}"
